@@ -570,18 +570,21 @@ def run_model(model, q, name):
     return rc, res, err
 
 
+HARNESS_TIMEOUT = 90
+
+
 def run_harness(exe, lines, name):
     os.makedirs(os.path.join(vlib.BUILD, "run"), exist_ok=True)
     hf = os.path.join(vlib.BUILD, "run", "%s.%d.cases" % (name, os.getpid()))
     with open(hf, "w") as f:
         f.write("\n".join(lines) + "\n")
-    rc, out, err = vlib.sh([exe, "run", hf], timeout=6000)
+    rc, out, err = vlib.sh([exe, "run", hf], timeout=HARNESS_TIMEOUT)
     if not os.environ.get("VERIF_KEEP"):
         os.remove(hf)
     return rc, out, err
 
 
-def run_all(exe, cases, name, max_crashes=4):
+def run_all(exe, cases, name, max_crashes=3):
     """run all cases; after a crash continue with the cases behind the crashing one in a new process.
     returns (blocks by case index string, list of (case index, observations so far, rc, stderr))"""
     blocks, crashes = {}, []
